@@ -150,17 +150,26 @@ func runC15(o Opts) error {
 			if i%4 == 0 {
 				a = [4]byte{byte(r.Intn(3)) * 100, 0, 255, byte(r.Intn(11))}
 			}
+			special := [][4]byte{{0, 0, 0, 0}, {255, 255, 255, 255}, {0, 0, 0, 1}, {127, 0, 0, 1}, {224, 0, 0, 1}, {169, 254, 0, 0}}
+			if i < 8*len(special) { // the addresses library code tends to special-case, with every boundary port
+				a = special[i/8]
+			}
 			p := uint16([]int{0, 1, 9, 10, 60000, 60001, 65535, r.Intn(65536)}[r.Intn(8)])
+			if i < 8*len(special) {
+				p = uint16([]int{0, 1, 9, 10, 60000, 60001, 65535, 54321}[i%8])
+			}
 			ap := netip.AddrPortFrom(netip.AddrFrom4(a), p)
 			str := formatRole(role, ap)
 			s.Add(fmt.Sprintf("CFormat %s %s %d %s", roles[role], coqBytes(a[:]), p, coqBytes([]byte(str))),
 				map[string]any{"op": "format", "role": roles[role], "addr": ap.Addr().String(), "port": p, "text": str}, "format", true)
-			if str != "" {
+			if _, perr := parseRole(role, ap.String()); perr == nil { // an address the role accepts
 				back, err := parseRole(role, str)
-				if _, perr := parseRole(role, ap.String()); perr == nil && (err != nil || back != ap) {
+				if err != nil || back != ap {
 					s.Fail(map[string]any{"op": "format", "role": roles[role], "addr": ap.Addr().String(), "port": p, "text": str},
 						"formatting an accepted address and parsing it again does not return the same address and port")
 				}
+			}
+			if str != "" {
 				c15parse(s, role, str, "parse-of-format")
 			}
 		}
